@@ -2,6 +2,23 @@
 """Imports confirmed seeded changes from /tmp/seeded-out into /verif/seeded/<prop>-<variant>/."""
 import json, os, re, shutil, sys
 SUMMARY = {
+ "C11-A": ("clone_from_impl rebuilds the clone's control bytes from EMPTY instead of copying the source's (tombstones become EMPTY)", "a source of >= 32 buckets with a tombstone inside a full run and a displaced key behind it"),
+ "C11-B": ("clone_from_impl bit-copies buckets when the element type has no drop glue (Clone::clone never called)", "a Clone-but-not-Copy element type without drop glue and a non-trivial clone"),
+ "C12-A": ("calculate_layout_for checks isize::MAX only for the data part, not data + control bytes", "element size 2^j-1 and len+additional just above one particular 7/8*2^k boundary (k=61 for u8)"),
+ "C12-B": ("reserve_rehash_inner frees an allocated-but-empty table before allocating the new one", "a failing try_reserve on an emptied/pre-sized table with additional > capacity()/2"),
+ "C13-A": ("erase credits growth_left also when it leaves a DELETED marker", "churn with tombstone-creating removals at high load followed by fresh keys: EMPTY bytes run out, probe never terminates"),
+ "C13-B": ("reserve_rehash_inner computes new_items from capacity - growth_left (tombstones count as occupied)", "churn under clustered hashes: in-place rehash never chosen, table doubles without bound"),
+ "C14-A": ("RawTable::insert re-probes the slot after reserve(1) only if the bucket count changed", "Vacant-entry insert at capacity()==len() with >= half tombstones where the in-place rehash frees an earlier probe group"),
+ "C14-B": ("replace_bucket_with restores the tag with a plain store instead of set_ctrl (mirror byte stays EMPTY)", "replace_entry_with(Some) on an element that wrapped around the table end into a bucket below the group width"),
+ "C15-A": ("get_many_mut compares pointers only when the request hashes are equal", "two requests with different hashes resolving to one entry (unlawful eq / inconsistent Hash)"),
+ "C15-B": ("get_many_mut duplicate scan stops at the first absent key (break for continue)", "N >= 3 with an absent key before the second occurrence of a duplicate"),
+ "C17-A": ("calculate_layout_for rounds the control offset to Group::WIDTH instead of ctrl_align", "element alignment > 16 (e.g. repr(align(64)))"),
+ "C17-B": ("capacity_to_buckets uses saturating_mul(8)/7 instead of checked_mul", "capacity > usize::MAX/8; visible for zero-sized elements (4 EiB request reaches the allocator)"),
+ "C18-A": ("portable match_tag drops every hit that has another hit one byte below it", "portable scanner only: two live elements with equal tags in adjacent buckets, the upper one displaced"),
+ "C19-A": ("ParDrainProducer::fold_with checks folder.full() before consuming the item it already took", "into_par_iter/par_drain with a short-circuiting consumer on drop-tracked elements: one element per stopped producer is never dropped"),
+ "C19-B": ("RawParDrain::drive_unindexed clears the table after the bridge instead of in a scope guard", "a consumer that panics mid par_drain: the table still claims moved-out elements"),
+ "C20-A": ("serde size_hint::cautious returns the hint unchanged for zero-sized elements", "HashSet<()>/HashMap<(),()> with a claimed length above 4096"),
+ "C20-B": ("MapVisitor::visit_map uses entry(key).or_insert(value): the first value of a repeated key wins", "input that repeats a key with different values"),
  "C01-A": ("is_in_same_group measures from the group-aligned start of the probe position", "an in-place rehash with an unaligned home bucket and a specific tombstone layout (identity-like hashes)"),
  "C01-B": ("rehash_in_place: hash of bucket i hoisted out of the 'inner swap loop", "an in-place rehash in which a displaced element is swapped with another not-yet-rehashed element of a different hash"),
  "C02-A": ("replace_bucket_with runs the closure while the slot is still marked FULL", "a panicking replace_entry_with/and_replace_entry_with closure, then any further use or drop of the map"),
